@@ -44,7 +44,28 @@ func c19GenFile(r *Rng, idx int, force int) c19File {
 	var tables []string // global tables that can get members
 	var ltables []string
 	for i := 0; i < nStat; i++ {
-		switch r.Intn(23) {
+		switch r.Intn(24) {
+		case 23:
+			// a function value that starts on the line after its name (long names, wrapped by a formatter)
+			v := nm("WrappedFn")
+			switch r.Intn(4) {
+			case 0:
+				sb.WriteString(fmt.Sprintf("%s =\n  function(a)\n    return a\n  end\n", v))
+				wants = append(wants, want{v, "global-function-by-assignment-wrapped", true})
+			case 1:
+				sb.WriteString(fmt.Sprintf("local %s =\n  function(a) return a end\n", v))
+				wants = append(wants, want{v, "local-function-by-assignment-wrapped", true})
+			case 2:
+				t, m2 := nm("WrapTab"), nm("a_rather_long_member_name_for_a_callback")
+				sb.WriteString(fmt.Sprintf("%s = {}\n%s.%s =\n  function() end\n", t, t, m2))
+				tables = append(tables, t)
+				wants = append(wants, want{t, "global-table", true}, want{m2, "function-member-by-assignment-wrapped", true})
+			default:
+				t, m2 := nm("WrapCons"), nm("wrappedmemfn")
+				sb.WriteString(fmt.Sprintf("%s = {\n  %s =\n    function(x) return x end,\n}\n", t, m2))
+				tables = append(tables, t)
+				wants = append(wants, want{t, "global-table", true}, want{m2, "function-member-in-constructor-wrapped", true})
+			}
 		case 22:
 			// compact formatting: a table and the members added to it on one line
 			v, f1, f2 := nm("OneLineTab"), nm("onelinefn"), nm("onelinefn")
